@@ -3,8 +3,8 @@ import CnbVerif.Spec.Cleanup
 /-!
 Driver glue for C16. Model observation: how the scenario ends, the command log, the temp dirs left, as
 `Model/TestRunner` predicts them under the injected fault. Spec verdict: the cleanup conditions of `Spec/Cleanup`
-evaluated directly on the command log the *real* run produced (the model's evaluation is not consulted), for every
-case inside the property's quantifier (at most one injected panic or command failure).
+evaluated directly on the command log the *real* run produced and on what it left in TMPDIR (the model's evaluation is
+not consulted), whichever way the scenario process ended, for every case inside the property's quantifier (`inScope`).
 -/
 namespace CnbVerif.DriverC16
 open CnbVerif CnbVerif.Argv CnbVerif.TestRunner CnbVerif.TestRunnerIO
@@ -19,13 +19,29 @@ def panicSources (c : Case) : Nat :=
       | _ => 0)).sum
     | _ => 0)).sum)).sum
 
-/-- at most one injected panic or external-command failure -/
-def inScope (c : Case) : Bool :=
+/-- the `k`-th (1-based) command the real run issued is a `docker rm` -/
+def kthIsContainerRemoval (o : Obs) (k : Nat) : Bool :=
+  match o.log[k - 1]? with
+  | some (p, a) => (Spec.Cleanup.containerRemoval ⟨p, a⟩).isSome
+  | none => false
+
+/-- **Which cases the property is judged on.** The property quantifies over panics of the test closure / a container closure
+at any point, containers failing to start, pack failing, and external-command failures: judged are
+* every scenario with any panic steps in which **no `docker rm` is made to fail** — whatever else fails, how often and
+  in which combination (fault scripts whose rules spare `docker rm`, pack missing, the k-th command failing when that
+  command is not a `docker rm`): the faults are in the commands libcnb-test *uses*, the removals it must still issue;
+* a failing `docker rm` as the *only* thing that goes wrong (no panic step, one injection).
+Not judged (compared with the model only): a `docker rm` failing while something else already failed — the removal
+command itself breaks during unwinding, `Drop` panics a second time and the process aborts (stated in
+`Props/C16.double_fault_aborts`) — and `docker` missing from PATH altogether. -/
+def inScope (c : Case) (o : Obs) : Bool :=
   match c.inj with
-  | .none => panicSources c ≤ 1
-  | .failAt _ => panicSources c = 0
-  | .packGone _ => panicSources c = 0
+  | .none => true
+  | .failAt k => panicSources c = 0 || !kthIsContainerRemoval o k
+  | .packGone _ => true
   | .dockerGone _ => false
+  | .script rules => rules.all FRule.sparesRm || (panicSources c = 0 && rules.length ≤ 1 &&
+      rules.all (fun r => match r.sel with | .atIdx _ => true | _ => false))
 
 def isDigits (w : Bytes) : Bool := !w.isEmpty && w.all Spec.Pflag.isDigit
 
@@ -38,17 +54,24 @@ def ownObs (w : Bytes) : Bool :=
     !digits.isEmpty && (sfx = [] || sfx = w!".build-cache" || sfx = w!".launch-cache")
   | _ => false
 
+/-- The cleanup clauses are read off the command log of the stand-ins and the state of TMPDIR alone — however the scenario
+process ended (normally, by panic, by `abort`, killed): a run that dies before it issued its removals fails M1/M2/M4 like
+any other. How the process ended is only appended to the reason. -/
 def verdict (c : Case) (o : Obs) : String :=
-  if !inScope c then "ok"
-  else if o.exit != "ok" && o.exit != "panic" then "fail:ended-by-" ++ o.exit
+  if !inScope c o then "ok"
   else
     let log : List Cmd := o.log.map (fun (p, a) => ⟨p, a⟩)
-    if !Spec.Cleanup.m1 log then "fail:M1-detached-container-not-force-removed"
-    else if !Spec.Cleanup.m2 w!"$N1" log then "fail:M2-image-or-volumes-not-removed-exactly-once-after-last-use"
-    else if !Spec.Cleanup.m3 ownObs [] log then "fail:M3-foreign-resource-removed"
-    else if o.tmp != 0 then "fail:M4-temp-dir-left-behind"
-    else if !o.fixtureSame then "fail:fixture-modified"
-    else "ok"
+    let why : Option String :=
+      if !Spec.Cleanup.m1 log then some "M1-detached-container-not-force-removed"
+      else if !Spec.Cleanup.m1x log then some "M1x-container-not-removed-exactly-once-after-last-use"
+      else if !Spec.Cleanup.m2 w!"$N1" log then some "M2-image-or-volumes-not-removed-exactly-once-after-last-use"
+      else if !Spec.Cleanup.m3 ownObs [] log then some "M3-foreign-resource-removed"
+      else if o.tmp != 0 then some "M4-temp-dir-left-behind"
+      else if !o.fixtureSame then some "fixture-modified"
+      else none
+    match why with
+    | none => "ok"
+    | some w => "fail:" ++ w ++ (if o.exit == "ok" || o.exit == "panic" then "" else ";process-ended-by-" ++ o.exit)
 
 def handle (fields : List String) (obs : String) : String × String :=
   match parseCase fields with
